@@ -58,6 +58,28 @@ func editSpaceMode(r *explore.Run, seedBase int, mode string, body func(c *explo
 	}
 }
 
+// lightEditsAdaptive: every light single edit of every sentence with <=k deviations, and with <=k+1 / k+2
+// deviations for the roots that stay below capPerRoot sentences at that bound (small DDL roots reach their
+// optional clauses only there).
+func lightEditsAdaptive(r *explore.Run, k int, capPerRoot int64, body func(c *explore.Ctx, e *Entry, s string)) {
+	editSpaceRoots(r, fmt.Sprintf("S5/light-edits(seeds<=%d)", k), k, grammar.Roots, EditAlphabet, true, 0, body)
+	if r.Replaying() {
+		return
+	}
+	bounds := rootBounds(k, capPerRoot)
+	for extra := 1; extra <= 2; extra++ {
+		var roots []*grammar.Root
+		for _, root := range grammar.Roots {
+			if bounds[root.Name] >= k+extra {
+				roots = append(roots, root)
+			}
+		}
+		if len(roots) > 0 {
+			editSpaceRoots(r, fmt.Sprintf("S5/light-edits(small roots, seeds=%d)", k+extra), k+extra, roots, EditAlphabet, true, k+extra, body)
+		}
+	}
+}
+
 // lightKinds are the edit kinds that do not multiply by the edit alphabet.
 var lightKinds = []int{0, 1, 2, 5, 6, 8}
 
